@@ -202,6 +202,17 @@ Section Renumbering.
       rewrite s_eqb, anum_rn. reflexivity.
     Qed.
 
+    Lemma end_more_double_rn g t k : end_more_double (rn_mol s g) (s t) (s k) = end_more_double g t k.
+    Proof.
+      unfold end_more_double. rewrite nbrs_rn. unfold rn_nb. rewrite existsb_map. apply existsb_ext. intros mb. cbn [fst snd].
+      rewrite s_eqb. reflexivity.
+    Qed.
+
+    Lemma end_crowded_rn g t : end_crowded (rn_mol s g) (s t) = end_crowded g t.
+    Proof.
+      unfold end_crowded. rewrite nbrs_rn. unfold rn_nb. rewrite filter_map_comm, zlen_map. reflexivity.
+    Qed.
+
     Lemma end_subst_rn g t k : end_subst (rn_mol s g) (s t) (s k) = map s (end_subst g t k).
     Proof.
       unfold end_subst. rewrite nbrs_rn. unfold rn_nb. rewrite filter_map_comm, !map_map. cbn [fst snd].
@@ -222,8 +233,10 @@ Section Renumbering.
       destruct p as [|t1 [|n1 r]]; cbn [map]; try reflexivity.
       change (s t1 :: s n1 :: map s r) with (map s (t1 :: n1 :: r)). rewrite <- map_rev.
       destruct (rev (t1 :: n1 :: r)) as [|t2 [|m1 r2]]; cbn [map]; try reflexivity.
-      rewrite !end_blocked_rn, !end_subst_rn.
+      rewrite !end_blocked_rn, !end_subst_rn, !end_more_double_rn, !end_crowded_rn.
       destruct (end_blocked fs g t1 n1); [reflexivity|]. destruct (end_blocked fs g t2 m1); [reflexivity|].
+      destruct (end_more_double g t1 n1 || end_more_double g t2 m1); [reflexivity|].
+      destruct (end_crowded g t1 || end_crowded g t2); [reflexivity|].
       destruct (end_subst g t1 n1) as [|a ra]; cbn [map]; [reflexivity|].
       destruct (end_subst g t2 m1) as [|c rc]; cbn [map]; [reflexivity|].
       change (s a :: map s ra) with (map s (a :: ra)). change (s c :: map s rc) with (map s (c :: rc)).
@@ -241,6 +254,8 @@ Section Renumbering.
       unfold sg_cum_entry. destruct p as [|t1 [|n1 r]]; cbn [In]; try tauto.
       destruct (rev (t1 :: n1 :: r)) as [|t2 [|m1 r2]]; cbn [In]; try tauto.
       destruct (end_blocked fs g t1 n1); cbn [In]; [tauto|]. destruct (end_blocked fs g t2 m1); cbn [In]; [tauto|].
+      destruct (end_more_double g t1 n1 || end_more_double g t2 m1); cbn [In]; [tauto|].
+      destruct (end_crowded g t1 || end_crowded g t2); cbn [In]; [tauto|].
       destruct (end_subst g t1 n1) as [|a ra]; cbn [In]; [tauto|].
       destruct (end_subst g t2 m1) as [|c rc]; cbn [In]; [tauto|].
       intros [<-|[]]. cbn [fst List.length]. split; [reflexivity | lia].
@@ -523,6 +538,8 @@ Section EnvSpec.
     In path ps /\
     exists t1 x1 r t2 y1 r', path = t1 :: x1 :: r /\ rev path = t2 :: y1 :: r' /\
       end_blocked fs g t1 x1 = false /\ end_blocked fs g t2 y1 = false /\
+      end_more_double g t1 x1 = false /\ end_more_double g t2 y1 = false /\
+      end_crowded g t1 = false /\ end_crowded g t2 = false /\
       (exists ra, end_subst g t1 x1 = n0 :: ra /\ n2 = second_of (n0 :: ra)) /\
       (exists rc, end_subst g t2 y1 = n1 :: rc /\ n3 = second_of (n1 :: rc)).
   Proof.
@@ -530,6 +547,8 @@ Section EnvSpec.
     destruct p as [|t1 [|x1 r]]; try contradiction.
     destruct (rev (t1 :: x1 :: r)) as [|t2 [|y1 r']] eqn:Er; try contradiction.
     destruct (end_blocked fs g t1 x1) eqn:B1; [contradiction|]. destruct (end_blocked fs g t2 y1) eqn:B2; [contradiction|].
+    destruct (end_more_double g t1 x1 || end_more_double g t2 y1) eqn:D; [contradiction|]. apply orb_false_elim in D. destruct D as [D1 D2].
+    destruct (end_crowded g t1 || end_crowded g t2) eqn:Cr; [contradiction|]. apply orb_false_elim in Cr. destruct Cr as [C1 C2].
     destruct (end_subst g t1 x1) as [|a ra] eqn:E1; [contradiction|].
     destruct (end_subst g t2 y1) as [|c rc] eqn:E2; [contradiction|].
     destruct Hin as [E|[]]. injection E as <- <- <- <- <-.
@@ -934,20 +953,6 @@ Definition ex_cut : mol :=
          (4, [(3, (mkBond 2 None)); (5, (mkBond 2 None)); (6, (mkBond 2 None))]); (5, [(4, (mkBond 2 None))]);
          (6, [(4, (mkBond 2 None)); (7, (mkBond 1 None))]); (7, [(6, (mkBond 1 None))])].
 
-(* the unrestricted statement "both terminals of a cis/trans entry are terminals of the double-bond graph" is false for
-   the faithful model: the inner C=C of the linear unit C=C=S is registered as a cis/trans bond (2,3) although atom 3 has
-   two double bonds (replayed on the real code by the check) *)
-Theorem cis_trans_terminals_maximal_refuted :
-  exists g ps e, wf_mol g = true /\ cumulenes el_double g = Ok ps /\
-    In ((2, 3), e) (sg_cis_trans_of (sg_cumulenes_of el_single g ps)) /\
-    ~ In 3 (terminals_of (dbl_adj el_double g)).
-Proof.
-  exists ex_cut, [[2; 3]; [3; 4]; [5; 4]; [6; 4]], (1, 4, None, None).
-  split; [vm_compute; reflexivity|]. split; [vm_compute; reflexivity|]. split.
-  - vm_compute. left. reflexivity.
-  - vm_compute. intros [H|[H|[H|[]]]]; discriminate.
-Qed.
-
 (* FC(Cl)=C=C(Br)I renumbered by n -> 2n + 10: a non-trivial instance of every hypothesis above *)
 Definition ex_allene : mol :=
   mkMol [(1, (mkAtom 9 None 0 false (Some 0) None)); (2, (mkAtom 6 None 0 false (Some 0) None)); (3, (mkAtom 17 None 0 false (Some 0) None));
@@ -972,7 +977,7 @@ Theorem registries_example :
              r_sg_al (rn_reg ex_s r) = [(18, (12, 22, Some 16, Some 24))]) /\
   (exists r, registries_real ex_th = Ok r /\ r_tetrahedrons r = [2; 3] /\ r_sg_th r = [(2, [1; 3; 4])]) /\
   (exists r, registries_real ex_cut = Ok r /\
-             r_sg_ct r = [((2, 3), (1, 4, None, None)); ((3, 4), (2, 5, None, Some 6)); ((6, 4), (7, 3, None, Some 5))]).
+             r_cumulenes r = [[2; 3]; [3; 4]; [5; 4]; [6; 4]] /\ r_sg_cum r = [] /\ r_sg_ct r = []).
 Proof.
   split; [unfold ex_s; intros x y H; lia|]. split; [vm_compute; reflexivity|]. split; [vm_compute; reflexivity|].
   split; [|split]; eexists; (split; [vm_compute; reflexivity|]); vm_compute; repeat split; reflexivity.
